@@ -295,7 +295,7 @@ def run(case, obs):
         obs.nontrivial = True
         return
     M = case["matrix"]
-    r, c = len(M), len(M[0])
+    r, c = len(M), (len(M[0]) if M else 0)
     obs.nontrivial = r >= 2 and c >= 2 and len({x for row in M for x in row}) > 1
     obs.outcome(f"shape:{'square' if r == c else 'wide' if r < c else 'tall'}")
     _run_one(obs, M, case["exact"], case.get("tuple", False))
@@ -307,7 +307,7 @@ def shrink(case):
     if case.get("kind") != "h":
         return
     M = case["matrix"]
-    r, c = len(M), len(M[0])
+    r, c = len(M), (len(M[0]) if M else 0)
     if r > 1:
         for i in range(r):
             yield dict(case, matrix=M[:i] + M[i + 1:])
